@@ -33,7 +33,7 @@ ASSUMPTIONS = ["CPython 3.12 ast.parse/ast.unparse define 'the same syntax tree'
                "identifiers a,b,c,d,t,u,p,q,k,attr and literals listed in mc/gen/exprs.py stand for all others"]
 MANIFEST = {
     "category": "exploration",
-    "text": "Bounded exhaustive enumeration of expression trees (all parent/slot/child triples at depth 2; depth 3 and sibling pairs over the grouping-sensitive subset in the thorough tier) through the real visitor into all seven storage slots; str(), iteration and name resolution judged against CPython's own parser. String-annotation parsing rule enumerated over slots (eight, class decorators included) x future-import x Literal contexts; the same annotation text in two scopes and the same module path loaded twice. The string rule also covers strings that are keywords or constant names, and the name elements of every parsed string are compared with the names the expression references.",
+    "text": "Bounded exhaustive enumeration of expression trees (all parent/slot/child triples at depth 2; depth 3 and sibling pairs over the grouping-sensitive subset in the thorough tier) through the real visitor into all seven storage slots; str(), iteration and name resolution judged against CPython's own parser. String-annotation parsing rule enumerated over slots (eight, class decorators included) x future-import x Literal contexts; the same annotation text in two scopes and the same module path loaded twice. The string rule also covers strings that are keywords or constant names, and the name elements of every parsed string are compared with the names the expression references. The string rule also covers the VALUE of annotated assignments (explicit type aliases); a chain-resolution family checks that every name element of dotted chains of two to four names (every slot) resolves through the name before it.",
     "note": "CPython's ast is the oracle; complete for the template alphabet and depth stated; deeper nesting is not covered.",
     "technique": "model checking by exhaustive small-scope enumeration of expression trees on the real visitor, CPython ast as oracle",
 }
